@@ -149,11 +149,29 @@ class RecordLoop:
         self.paths = []
         if self.loop:
             base = len(self.loop["entry"].conds)
+            # a hand-written one-record lookahead instead of `peekable()`: `let mut la = it.next(); while let Some(r) = la { la = it.next(); .. }`
+            # - the carried `la` is this iteration's record, the `next()` taken at the top of the body is what `peek()` would show
+            self.lookahead_iter = None
+            la = self._manual_lookahead()
+            self.lookahead = la
+            nt = norm_term
+            if la is not None:
+                la_term = la
+
+                def nt(t, la_term=la_term):
+                    if t == la_term:
+                        return NEXT
+                    if t[0] == "mcall" and is_next(t[1]):
+                        return PEEK
+                    return norm_term(t)
+            self._nt = nt
             for st, (k, v) in self.loop["paths"]:
-                conds = tuple((fc.rewrite(a, norm_term), p) for a, p in st.conds[base:])
+                conds = tuple((fc.rewrite(a, nt), p) for a, p in st.conds[base:])
                 effs = []
                 for e in st.effects:
-                    ne = norm_effect(fc.rewrite(e, norm_term))
+                    if la is not None and e[0] == "assign" and e[1] == ("place", la[1], ()) and fc.rewrite(e[2], nt) == PEEK:
+                        continue        # the advance of the manual lookahead
+                    ne = norm_effect(fc.rewrite(e, nt))
                     if ne is not None:
                         effs.append(ne)
                 a = fc.assignment(conds)
@@ -194,6 +212,36 @@ class RecordLoop:
             p_["conds"] = tuple((fc.rewrite(a, rw), pol) for a, pol in p_["conds"])
             p_["assign"] = fc.assignment(p_["conds"])
             p_["effects"] = [fc.rewrite(e, rw) for e in p_["effects"]]
+
+    def _manual_lookahead(self):
+        """the loop-carried variable of a manual lookahead, as a ("loop", name, idx) term - or None. Conditions: before the loop it
+        holds `it.next()`; every iteration that continues ends with it holding an `it.next()` taken in that iteration (exactly one
+        `next()` per iteration, on the same iterator); the loop runs while it is `Some`."""
+        L = self.loop
+        cands = []
+        for vid, t in L["entry"].env.items():
+            if not (isinstance(t, tuple) and t[:1] == ("loop",) and t[2] == L["index"]):
+                continue
+            pre = L["pre"].env.get(vid)
+            if not (isinstance(pre, tuple) and pre[0] == "mcall" and is_next(pre[1])):
+                continue
+            it_place = pre[2][0]
+            conts = [st for st, (k, v) in L["paths"] if k == S.CONT]
+            ok_ = bool(conts)
+            for st in conts:
+                fin = st.env.get(vid)
+                nexts = [e for e in st.effects[len(L["entry"].effects):] if e[0] == "call" and is_next(e[1])]
+                if not (isinstance(fin, tuple) and fin[0] == "mcall" and is_next(fin[1]) and fin[2][0] == it_place and len(nexts) == 1
+                        and ("mcall",) + tuple(nexts[0][1:]) == fin):
+                    ok_ = False
+            # the loop condition tests the carried value
+            tested = all(any(a == ("is", t, "Some") for a, p_ in st.conds[len(L["entry"].conds):]) for st, o in L["paths"])
+            # exactly one `next()` on that iterator before the loop (the one the carried variable starts with)
+            pre_nexts = [e for e in L["pre"].effects if e[0] == "call" and is_next(e[1]) and e[2] and e[2][0] == it_place]
+            if ok_ and tested and len(pre_nexts) == 1 and ("mcall",) + tuple(pre_nexts[0][1:]) == pre:
+                cands.append(t)
+                self.lookahead_iter = it_place
+        return cands[0] if len(cands) == 1 else None
 
     # ---- loop state kept in one private struct (`current.mapping`, `current.unique_methods`): scalar replacement -------------
     def _sroa_detect(self):
@@ -269,12 +317,12 @@ class RecordLoop:
                     continue
                 if not seen_loop:
                     continue
-                ne = norm_effect(fc.rewrite(e, norm_term))
+                ne = norm_effect(fc.rewrite(e, getattr(self, "_nt", norm_term)))
                 if ne is not None:
                     effs.append(ne)
             if seen_loop:
-                d = dict(conds=tuple((fc.rewrite(a, norm_term), p) for a, p in st.conds), effects=effs,
-                         value=fc.rewrite(v, norm_term), raw_effects=st.effects)
+                d = dict(conds=tuple((fc.rewrite(a, getattr(self, "_nt", norm_term)), p) for a, p in st.conds), effects=effs,
+                         value=fc.rewrite(v, getattr(self, "_nt", norm_term)), raw_effects=st.effects)
                 if self.sroa:
                     d["conds"] = tuple((fc.rewrite(a, self._sroa_term), pol) for a, pol in d["conds"])
                     d["effects"] = self._sroa_effects(d["effects"])
